@@ -9,7 +9,7 @@ COQ_RUN = "run05"
 COQ_CASE_TYPE = "case05"
 SHARD = 60
 RULE = ("a connected, error-free object, then one request (or 2-5 requests in a row): request strings from a grammar (one letter, one letter + arguments, two letters, "
-        "with surrounding blanks/tabs/newlines); reply streams built from the conforming reply with one disturbance per I/O position: SerialException at the write or at "
+        "with surrounding white space: blanks/tabs/newlines, the separators \\x1c-\\x1f, no-break and wide spaces); reply streams built from the conforming reply with one disturbance per I/O position: SerialException at the write or at "
         "any read, 24/25/26/27 empty reads before the reply (retry boundary; an empty read is a timeout or a line of white space only), device error line (bare, and one that begins with the request's own name), wrong-name line, silence; every one of the 32 request methods with a "
         "fault at every I/O position of its nominal exchange (systematic), plus undisturbed sequences whose return values are judged against the device model; "
         "non-trivial = the call consumed at least two events")
@@ -17,11 +17,11 @@ TRUSTED = ["pyserial behaviour = fake port (write/readline succeed, b'' on timeo
            "the conforming EBB device (reply = request name, comma, payload) as written in tools/harness/props/ebb3sim.py"]
 ASSUMPTIONS = ["replies are ASCII lines; faults are SerialException; payloads of name-correct replies are well-formed for the method that parses them"]
 
-REQS = ["QM", "V", "I", "QB", "QS", "QG", "A", "QP", "QE", "QC", "QT", "PI,B,1", "QL,3", "I,1", "S,1", "QR", "ES", "Q1", "T3", "S2,1"]
+REQS = ["QM", "V", "I", "QB", "QS", "QG", "A", "QP", "QE", "QC", "QT", "PI,B,1", "QL,3", "I,1", "S,1", "QR", "ES", "Q1", "T3", "S2,1", "QL,{0}", "QT{}", "Q%s"]
 CMDS = ["EM,1,1", "SP,1,100", "TP", "SM,100,0,0", "R", "RB", "BL", "CS", "SC,4,16000", "S,2", "XM,10,1,1", "T3,1,0,0,0,0,0,0,3", "CU,50,0",
         "T3,1,0,0,0,0,0,0,3", "S2,0,4,50,10", "L3,1,2,3,4,5,6,7,8", "L3", "S2", "T3", "TD,1,2", "LM,1,2,3,4,5,6", "LT,5,1,0,1,0",      # names whose second character is a digit, and their letter-only neighbours
-        "B", "L,1,2", "b,7", "l", "LB", "BR", "r,1", "C", "N,1", "O,1,2,3", "Z"]        # one-letter names, incl. the letters of the reboot-class names
-WS = ["", "", " ", "\t", " \r\n", "  "]
+        "B", "L,1,2", "b,7", "l", "LB", "BR", "r,1", "C", "N,1", "O,1,2,3", "Z", "ST,{AxiDraw}", "SM,{0},1", "ST,100%d", "SL,{"]        # one-letter names, incl. the letters of the reboot-class names
+WS = ["", "", " ", "\t", " \r\n", "  ", "", " ", "\x1f", "\x1c\x1d ", "\xa0", "\u2003", "\x85\t"]       # str.strip() removes every str.isspace() character, not the six ASCII ones only
 
 def _expected(call, events):
     """what a conforming exchange must return (None = not judged), from the events alone"""
@@ -81,9 +81,11 @@ def generate(rng, tier):
                 nm_i = nom[i][1].split(",")[0] if isinstance(nom[i], tuple) else ""
                 for kind, repl in (("fault", ["F"]), ("errline", [("L", "!Err: 5")]), ("wrongname", [("L", "ZZ,1")]), ("silence", ["E"] * 30),
                                    ("nameerr", [("L", nm_i + ",Err: 7")]), ("nameerr2", [("L", nm_i + " Err: bad")]),
-                                   ("nearname", [("L", nm_i[:1] + "_,1")])):          # shares only the first character with the expected name
-                    if kind in ("errline", "wrongname", "nameerr", "nameerr2", "nearname") and nom[i] == "E": continue          # those replace a reply, not a write
+                                   ("nearname", [("L", nm_i[:1] + "_,1")]),          # shares only the first character with the expected name
+                                   ("casename", [("L", nm_i.swapcase() + (nom[i][1][len(nm_i):] if isinstance(nom[i], tuple) else ""))])):      # the right letters in the other case: a different name
+                    if kind in ("errline", "wrongname", "nameerr", "nameerr2", "nearname", "casename") and nom[i] == "E": continue          # those replace a reply, not a write
                     if kind == "nearname" and len(nm_i) < 2: continue
+                    if kind == "casename" and nm_i.swapcase() == nm_i: continue
                     ev = nom[:i] + repl + nom[i + 1:]
                     add([c, S.random_call(rng)], [ev, S.nominal(("status",), rng)], "%s@%d/%s" % (kind, i, m))
                 if isinstance(nom[i], tuple):
@@ -145,6 +147,11 @@ def generate(rng, tier):
         parts = [S.nominal(c, rng) for c in calls]
         add(calls, parts, "conforming-sequence", [_expected(c, p) for c, p in zip(calls, parts)])
     return cases
+
+def static_obligations(work, tier):
+    import common
+    return common.ws_table_obligation(work)
+
 
 def run_impl(c):
     return {"obs": S.jsonable_obs(S.run_history(c["calls"], c["events"], c.get("close_raises", False)))}
